@@ -1,30 +1,4 @@
 // ---- C08: evaluating with the simplified (stripped) factor set - theorems over the proved contracts of strip and of the weighting step
-/// the keys the weighting step of carrier c looks up (read off we_factors_ok / the we_* spec functions) read the same in both sets
-pub open spec fn key_same(w: Seq<Factor>, w2: Seq<Factor>, c: Carrier, s: Source, d: Dest, st: Step) -> bool {
-    has_fp(w2, c, s, d, st) == has_fp(w, c, s, d, st) && fp(w2, c, s, d, st) == fp(w, c, s, d, st)
-}
-pub open spec fn we_lookups_same(w: Seq<Factor>, w2: Seq<Factor>, c: Carrier, exp: ExportedEnergy, del: DeliveredEnergy) -> bool {
-    &&& key_same(w, w2, c, Source::RED, Dest::SUMINISTRO, Step::A)
-    &&& (rv(del.onst_an) != 0real ==> key_same(w, w2, c, Source::INSITU, Dest::SUMINISTRO, Step::A))
-    &&& (rv(exp.an) != 0real && rv(exp.nepus_an) != 0real ==> forall|src: ProdSource| exp.by_src_an@.contains_key(src) ==>
-            #[trigger] key_same(w, w2, c, ps_source(src), Dest::A_NEPB, Step::A) && key_same(w, w2, c, ps_source(src), Dest::A_NEPB, Step::B))
-    &&& (rv(exp.an) != 0real && rv(exp.grid_an) != 0real ==> forall|src: ProdSource| exp.by_src_an@.contains_key(src) ==>
-            #[trigger] key_same(w, w2, c, ps_source(src), Dest::A_RED, Step::A) && key_same(w, w2, c, ps_source(src), Dest::A_RED, Step::B))
-}
-pub proof fn lemma_favg_keys(w: Seq<Factor>, w2: Seq<Factor>, c: Carrier, m: Map<ProdSource, f32>, e: real, d: Dest, st: Step)
-    requires forall|src: ProdSource| m.contains_key(src) ==> #[trigger] key_same(w, w2, c, ps_source(src), d, st),
-    ensures favg(w2, c, m, e, d, st) == favg(w, c, m, e, d, st), favg_ok(w2, c, m, d, st) == favg_ok(w, c, m, d, st),
-{
-    assert forall|src: ProdSource| favg_term(w2, c, m, e, d, st, src) == favg_term(w, c, m, e, d, st, src) by {
-        if m.contains_key(src) { assert(key_same(w, w2, c, ps_source(src), d, st)); }
-    }
-    if favg_ok(w, c, m, d, st) {
-        assert forall|src: ProdSource| m.contains_key(src) implies #[trigger] has_fp(w2, c, ps_source(src), d, st) by { assert(key_same(w, w2, c, ps_source(src), d, st)); assert(has_fp(w, c, ps_source(src), d, st)); }
-    }
-    if favg_ok(w2, c, m, d, st) {
-        assert forall|src: ProdSource| m.contains_key(src) implies #[trigger] has_fp(w, c, ps_source(src), d, st) by { assert(key_same(w, w2, c, ps_source(src), d, st)); assert(has_fp(w2, c, ps_source(src), d, st)); }
-    }
-}
 /// the weighting step of one carrier gives the same answer (a result for both or for neither; every figure equal) with two factor
 /// sets that read the same at the keys it looks up
 pub proof fn thm_c08_weights(w: Seq<Factor>, w2: Seq<Factor>, c: Carrier, k: real, used: UsedEnergy, exp: ExportedEnergy, del: DeliveredEnergy, r: Result<WeightedEnergy>, r2: Result<WeightedEnergy>)
@@ -69,8 +43,20 @@ pub proof fn lemma_r3s_one(a: R3) ensures r3s(1real, a) == a {
 
 // ------------------------------------------------------------------------------------------------ from strip's contract to the lookups
 /// what Factors::strip guarantees (clause C08.needed_kept of its proved contract)
-pub open spec fn needed_kept(w: Seq<Factor>, w2: Seq<Factor>, cs: Seq<Energy>) -> bool {
+pub open spec fn strip_needed_kept(w: Seq<Factor>, w2: Seq<Factor>, cs: Seq<Energy>) -> bool {
     forall|c: Carrier, s: Source, d: Dest, st: Step| needed(cs, c, s, d) ==> #[trigger] find_spec(w2, c, s, d, st) == find_spec(w, c, s, d, st)
+}
+/// the same in the form the theorems use: every needed key reads the same (present in both or in neither, same real triple)
+pub open spec fn needed_kept(w: Seq<Factor>, w2: Seq<Factor>, cs: Seq<Energy>) -> bool {
+    forall|c: Carrier, s: Source, d: Dest, st: Step| needed(cs, c, s, d) ==> #[trigger] key_same(w, w2, c, s, d, st)
+}
+pub proof fn lemma_strip_needed(w: Seq<Factor>, w2: Seq<Factor>, cs: Seq<Energy>)
+    requires strip_needed_kept(w, w2, cs),
+    ensures needed_kept(w, w2, cs),
+{
+    assert forall|c: Carrier, s: Source, d: Dest, st: Step| needed(cs, c, s, d) implies #[trigger] key_same(w, w2, c, s, d, st) by {
+        assert(key_same(w, w2, c, s, d, st));
+    }
 }
 /// no auxiliary component carries the service COGEN (the building class of known finding D11 is outside the theorem)
 pub open spec fn no_cogen_aux(cs: Seq<Energy>) -> bool {
@@ -151,7 +137,7 @@ pub proof fn thm_c08_lookups(cs: Seq<Energy>, c: Carrier, a: Run, lm: bool, w: S
     assert(run_n(a) == n) by { assert(e_vals(a.cs[0]).len() == n); }
     // K1: the grid supply factor of a carrier that has a balance
     assert(needed(cs, c, Source::RED, Dest::SUMINISTRO));
-    assert(find_spec(w2, c, Source::RED, Dest::SUMINISTRO, Step::A) == find_spec(w, c, Source::RED, Dest::SUMINISTRO, Step::A));
+    assert(key_same(w, w2, c, Source::RED, Dest::SUMINISTRO, Step::A));
     // K2: on-site supply, looked up only when something was produced on site
     if rv(a.del.onst_an) != 0real {
         lemma_sumf_nonzero(a.del.onst_t@);
@@ -164,7 +150,7 @@ pub proof fn thm_c08_lookups(cs: Seq<Energy>, c: Carrier, a: Run, lm: bool, w: S
         let j = choose|j: int| 0 <= j < cs.len() && (#[trigger] cs[j]) is Prod && cs[j]->Prod_0.source == src && ps_carrier(src) == c;
         if c == Carrier::ELECTRICIDAD { assert(src == ProdSource::EL_INSITU); assert(e_is_electricity(cs[j]) && e_is_onsite_pr(cs[j])); assert(has_elec_onsite_pr(cs)); }
         assert(needed(cs, c, Source::INSITU, Dest::SUMINISTRO));
-        assert(find_spec(w2, c, Source::INSITU, Dest::SUMINISTRO, Step::A) == find_spec(w, c, Source::INSITU, Dest::SUMINISTRO, Step::A));
+        assert(key_same(w, w2, c, Source::INSITU, Dest::SUMINISTRO, Step::A));
     }
     // K3 / K4: export factors of the sources that produce for this carrier
     assert forall|src: ProdSource| a.exp.by_src_an@.contains_key(src) implies
@@ -179,8 +165,8 @@ pub proof fn thm_c08_lookups(cs: Seq<Energy>, c: Carrier, a: Run, lm: bool, w: S
         assert forall|src: ProdSource| a.exp.by_src_an@.contains_key(src) implies
                 #[trigger] key_same(w, w2, c, ps_source(src), Dest::A_RED, Step::A) && key_same(w, w2, c, ps_source(src), Dest::A_RED, Step::B) by {
             assert(needed(cs, c, ps_source(src), Dest::A_RED));
-            assert(find_spec(w2, c, ps_source(src), Dest::A_RED, Step::A) == find_spec(w, c, ps_source(src), Dest::A_RED, Step::A));
-            assert(find_spec(w2, c, ps_source(src), Dest::A_RED, Step::B) == find_spec(w, c, ps_source(src), Dest::A_RED, Step::B));
+            assert(key_same(w, w2, c, ps_source(src), Dest::A_RED, Step::A));
+            assert(key_same(w, w2, c, ps_source(src), Dest::A_RED, Step::B));
         }
     }
     if rv(a.exp.an) != 0real && rv(a.exp.nepus_an) != 0real {
@@ -203,8 +189,8 @@ pub proof fn thm_c08_lookups(cs: Seq<Energy>, c: Carrier, a: Run, lm: bool, w: S
         assert forall|src: ProdSource| a.exp.by_src_an@.contains_key(src) implies
                 #[trigger] key_same(w, w2, c, ps_source(src), Dest::A_NEPB, Step::A) && key_same(w, w2, c, ps_source(src), Dest::A_NEPB, Step::B) by {
             assert(needed(cs, c, ps_source(src), Dest::A_NEPB));
-            assert(find_spec(w2, c, ps_source(src), Dest::A_NEPB, Step::A) == find_spec(w, c, ps_source(src), Dest::A_NEPB, Step::A));
-            assert(find_spec(w2, c, ps_source(src), Dest::A_NEPB, Step::B) == find_spec(w, c, ps_source(src), Dest::A_NEPB, Step::B));
+            assert(key_same(w, w2, c, ps_source(src), Dest::A_NEPB, Step::A));
+            assert(key_same(w, w2, c, ps_source(src), Dest::A_NEPB, Step::B));
         }
     }
 }
@@ -217,4 +203,104 @@ pub proof fn thm_c08_carrier(cs: Seq<Energy>, c: Carrier, a: Run, lm: bool, w: S
 {
     thm_c08_lookups(cs, c, a, lm, w, w2);
     thm_c08_weights(w, w2, c, k, a.used, a.exp, a.del, r, r2);
+}
+
+// ------------------------------------------------------------------------------------------------ C08 at the public entry point
+pub proof fn lemma_cgnfuel_avail(cs: Seq<Energy>, fuel: Carrier)
+    ensures any_sel(cs, Sel::CgnFuel(fuel)) ==> in_avail(cs, fuel),
+    decreases cs.len(),
+{
+    if cs.len() > 0 {
+        let c0 = cs.drop_last();
+        lemma_cgnfuel_avail(c0, fuel);
+        if any_sel(cs, Sel::CgnFuel(fuel)) {
+            if sel(Sel::CgnFuel(fuel), cs.last()) { assert(!(cs[cs.len() - 1] is Out) && e_carrier(cs[cs.len() - 1]) == fuel); }
+            else { let j = choose|j: int| 0 <= j < c0.len() && !((#[trigger] c0[j]) is Out) && e_carrier(c0[j]) == fuel; assert(cs[j] == c0[j]); }
+        }
+    }
+}
+pub proof fn lemma_cgnprod_avail(cs: Seq<Energy>)
+    ensures any_sel(cs, Sel::Prod(ProdSource::EL_COGEN)) ==> in_avail(cs, Carrier::ELECTRICIDAD),
+    decreases cs.len(),
+{
+    if cs.len() > 0 {
+        let c0 = cs.drop_last();
+        lemma_cgnprod_avail(c0);
+        if any_sel(cs, Sel::Prod(ProdSource::EL_COGEN)) {
+            if sel(Sel::Prod(ProdSource::EL_COGEN), cs.last()) { assert(!(cs[cs.len() - 1] is Out) && e_carrier(cs[cs.len() - 1]) == Carrier::ELECTRICIDAD); }
+            else { let j = choose|j: int| 0 <= j < c0.len() && !((#[trigger] c0[j]) is Out) && e_carrier(c0[j]) == Carrier::ELECTRICIDAD; assert(cs[j] == c0[j]); }
+        }
+    }
+}
+pub proof fn lemma_cgn_sum_keys(w: Seq<Factor>, w2: Seq<Factor>, cs: Seq<Energy>, n: int, l: Seq<Carrier>)
+    requires needed_kept(w, w2, cs),
+    ensures cgn_sum(w2, cs, n, false, l) == cgn_sum(w, cs, n, false, l),
+    decreases l.len(),
+{
+    if l.len() > 0 {
+        lemma_cgn_sum_keys(w, w2, cs, n, l.drop_last());
+        let fuel = l.last();
+        if cgn_uses(cs, false, fuel) {
+            lemma_cgnfuel_avail(cs, fuel);
+            assert(needed(cs, fuel, Source::RED, Dest::SUMINISTRO));
+            assert(key_same(w, w2, fuel, Source::RED, Dest::SUMINISTRO, Step::A));
+        }
+    }
+}
+/// the derived cogeneration factors are computed from needed keys only, so the two evaluated sets agree on every needed key as well
+pub proof fn lemma_cgn_needed(w: Seq<Factor>, w2: Seq<Factor>, f: Seq<Factor>, f2: Seq<Factor>, cs: Seq<Energy>)
+    requires needed_kept(w, w2, cs), cgn_added(w, f, cs), cgn_added(w2, f2, cs),
+    ensures needed_kept(f, f2, cs),
+{
+    if has_cgn_prod(cs) {
+        let n = w.len() as int; let n2 = w2.len() as int;
+        lemma_cgn_sum_keys(w, w2, cs, nsteps(cs) as int, carriers12());
+        lemma_cgnprod_avail(cs);
+        assert(needed(cs, Carrier::ELECTRICIDAD, Source::RED, Dest::SUMINISTRO));
+        assert(key_same(w, w2, Carrier::ELECTRICIDAD, Source::RED, Dest::SUMINISTRO, Step::A));
+        assert forall|c: Carrier, s: Source, d: Dest, st: Step| needed(cs, c, s, d) implies #[trigger] key_same(f, f2, c, s, d, st) by {
+            assert(key_same(w, w2, c, s, d, st));
+            lemma_find_split(f, n, c, s, d, st);
+            lemma_find_split(f2, n2, c, s, d, st);
+            if find_spec(w, c, s, d, st) is None {
+                let t = f.skip(n); let t2 = f2.skip(n2);
+                assert(t.len() == 5 && t2.len() == 5);
+                assert(t[0] == f[n] && t[1] == f[n + 1] && t[2] == f[n + 2] && t[3] == f[n + 3] && t[4] == f[n + 4]);
+                assert(t2[0] == f2[n2] && t2[1] == f2[n2 + 1] && t2[2] == f2[n2 + 2] && t2[3] == f2[n2 + 3] && t2[4] == f2[n2 + 4]);
+                lemma_find5(t, c, s, d, st); lemma_find5(t2, c, s, d, st);
+            }
+        }
+    }
+}
+/// THE C08 THEOREM AT THE PUBLIC ENTRY POINT: the same building (inside the property's domain, D11 class excluded) evaluated with the
+/// full factor set and with a set that keeps every needed key (what Factors::strip is proved to return): when both evaluations
+/// succeed, every per-carrier, whole-building and ratio figure is the same
+pub proof fn thm_c08_ep(comps: Components, w: Seq<Factor>, w2: Seq<Factor>, k_exp: f32, area: f32, lm: bool, r: Result<EnergyPerformance>, r2: Result<EnergyPerformance>)
+    requires comps_wf(comps.data@), nonneg_list(comps.data@), vals_dom(comps.data@), no_cogen_aux(comps.data@), needed_kept(w, w2, comps.data@),
+             ep_post(comps, w, k_exp, area, lm, r), ep_post(comps, w2, k_exp, area, lm, r2), r is Ok, r2 is Ok,
+    ensures ep_rel(r->Ok_0, r2->Ok_0, idx_ident(nsteps(comps.data@) as int), 1real, 1real),
+{
+    let cs = comps.data@;
+    let x = r->Ok_0; let y = r2->Ok_0;
+    let n = nsteps(cs) as int;
+    let idx = idx_ident(n);
+    lemma_lay_same(n, 1real);
+    assert(tags_same(cs, cs));
+    assert forall|i2: int| 0 <= i2 < idx.len() implies 0 <= #[trigger] idx[i2] < nsteps(cs) && val_rel(cs, cs, idx[i2], i2, 1real) by {
+        assert(idx[i2] == i2);
+        assert forall|j: int| 0 <= j < cs.len() implies rv(#[trigger] e_vals(cs[j])[i2]) == 1real * rv(e_vals(cs[j])[i2]) by {
+            assert(1real * rv(e_vals(cs[j])[i2]) == rv(e_vals(cs[j])[i2])) by(nonlinear_arith);
+        }
+    }
+    lemma_cgn_needed(w, w2, x.wfactors.wdata@, y.wfactors.wdata@, cs);
+    assert forall|c: Carrier| x.balance_cr@.contains_key(c) implies we_lookups_same(x.wfactors.wdata@, y.wfactors.wdata@, c, (#[trigger] x.balance_cr@[c]).exp, x.balance_cr@[c].del) by {
+        reveal(bfc_post);
+        let bx = x.balance_cr@[c];
+        let a = Run { cs: filter_carrier(cs, c), used: bx.used, prod: bx.prod, fm: bx.f_match@, exp: bx.exp, del: bx.del };
+        lemma_filter_carrier(cs, c, nsteps(cs));
+        thm_c08_lookups(cs, c, a, lm, x.wfactors.wdata@, y.wfactors.wdata@);
+    }
+    lemma_ep_bcr(comps, comps, k_exp, lm, x, y, idx, 1real, 1real);
+    lemma_ep_building(x.balance_cr@, y.balance_cr@, comps, comps, x.balance, y.balance, 1real);
+    lemma_ep_rer(x.balance_cr@, y.balance_cr@, x.balance, y.balance, rv(k_exp), 1real);
 }
